@@ -418,6 +418,14 @@ pub fn run(opts: &Opts) -> i32 {
         probes.push((format!("annotated-binder-shadowing form={form}"), mk("Num"), "exit:5"));
         ann_pairs.push((form.to_string(), a, a + 1));
     }
+    // the binder of a manifest existential does not scope over its own definition
+    {
+        let mk = |name: &str| format!("{pre}begin\n  let Transparent = exists ({name} as Int64 : VType) . {name} that\n  def packed : Transparent = (Int64, (5 : Int64)) that\n  def ! reveal ((Representation, value) : Transparent) : Ret Int64 = ret value that\n  do value <- ! reveal packed;\n  ! (process/exit) value\nend\n");
+        probes.push(("annotated-binder-fresh form=manifest-existential".to_string(), mk("Zrep"), "exit:5"));
+        probes.push(("annotated-binder-shadowing form=manifest-existential".to_string(), mk("Int64"), "exit:5"));
+        // a definition that mentions an unbound name stays unbound whatever the binder is called
+        probes.push(("manifest-definition-is-outside-its-binder".to_string(), format!("{pre}begin\n  let Transparent = exists (zfree as zfree : VType) . zfree that\n  ! (process/exit) (0 : Int64)\nend\n"), "unbound"));
+    }
     let _ = &ann_pairs;
     let mut session = CompilerSession::default();
     for (k, (tag, source, want)) in probes.iter().enumerate() {
